@@ -69,6 +69,10 @@ func (w *World) c11Transfers(full bool) []c11Transfer {
 	for fi, fe := range fees {
 		out = append(out, c11Transfer{fmt.Sprintf("internal(bob)/fee%d amt=10001 uother ch1", fi), TransferSpec{"channel-1", denomOTH, "10001", orb, w.FwdInternal(w.Bob), fe}})
 	}
+	// the 18-decimal style denomination (stray and dust balances there reach the 64-bit edge in the prefix histories)
+	for fi, fe := range fees {
+		out = append(out, c11Transfer{fmt.Sprintf("internal(bob)/fee%d amt=2500000 %s", fi, denomBIG2), TransferSpec{"channel-0", denomBIG2, "2500000", orb, w.FwdInternal(w.Bob), fe}})
+	}
 	out = append(out, c11Transfer{"cctp(0) over burn limit", TransferSpec{"channel-0", denomUSDC, fmt.Sprint(burnLimit + 1), orb, w.FwdCCTP(0), nil}})
 	return out
 }
